@@ -7,4 +7,7 @@ MCTypeCfgs == {[p \in Peers |-> IF p = "p1" THEN "friend" ELSE IF p = "p2" THEN 
 \* relay configuration: p1 a root friend (originates and relays), p2 a parent, p3 a child (relays only)
 RelayRoleCfgs == {[p \in Peers |-> IF p = "p1" THEN {"root"} ELSE {}]}
 RelayTypeCfgs == {[p \in Peers |-> IF p = "p1" THEN "friend" ELSE IF p = "p2" THEN "parent" ELSE "children"]}
+\* validator set of the node: none (claims stand), only p2 (the claim of p1 is not honoured)
+MCAllowCfgs == {{}, {"p2"}}
+RelayAllowCfgs == {{}}
 ====
